@@ -770,3 +770,42 @@ V("bc-writeback-skips-unchanged-neutral", "neutral", ["C01", "C02", "C08", "C13"
   "            events = 0\n            shr_domain_min = prop_domains[var_idx, MIN]",
   "            if shr_domains_stack[top, shr_domain_idx, MIN] >= prop_domains[var_idx, MIN] - prop_offsets[var_idx, 0] and shr_domains_stack[top, shr_domain_idx, MAX] <= prop_domains[var_idx, MAX] - prop_offsets[var_idx, 0]:\n                continue\n            events = 0\n            shr_domain_min = prop_domains[var_idx, MIN]",
   "the write-back skips a position whose view brings nothing (both bounds compared)")
+
+# ------------------------------------------------------------------------------------- round-3 rules
+V("mp-liveness-filter-hoisted-as-generator", "break", ["C18"], "nucs/solvers/multiprocessing_solver.py",
+  "    while True:\n        try:\n            return solutions.get(timeout=QUEUE_TIMEOUT)\n        except Empty:\n            dead = [idx for idx, process in enumerate(processes) if not finished[idx] and not process.is_alive()]",
+  "    expected = (idx for idx, is_finished in enumerate(finished) if not is_finished)\n    while True:\n        try:\n            return solutions.get(timeout=QUEUE_TIMEOUT)\n        except Empty:\n            dead = [idx for idx in expected if not processes[idx].is_alive()]",
+  "the 'not yet finished' filter hoisted out of the waiting loop as a generator: exhausted by the first liveness check", "get_message")
+V("mp-liveness-filter-hoisted-as-list-neutral", "neutral", ["C18", "C11", "C12"], "nucs/solvers/multiprocessing_solver.py",
+  "    while True:\n        try:\n            return solutions.get(timeout=QUEUE_TIMEOUT)\n        except Empty:\n            dead = [idx for idx, process in enumerate(processes) if not finished[idx] and not process.is_alive()]",
+  "    expected = [idx for idx, is_finished in enumerate(finished) if not is_finished]\n    while True:\n        try:\n            return solutions.get(timeout=QUEUE_TIMEOUT)\n        except Empty:\n            dead = [idx for idx in expected if not processes[idx].is_alive()]",
+  "the same filter hoisted as a list (the flags do not change during one wait)")
+V("mp-sigchld-ignored", "break", ["C18"], "nucs/solvers/multiprocessing_solver.py", "        logger.debug(\"MultiprocessingSolver initialized\")\n",
+  "        import signal\n        signal.signal(signal.SIGCHLD, signal.SIG_IGN)\n        logger.debug(\"MultiprocessingSolver initialized\")\n",
+  "SIGCHLD ignored: is_alive() answers True for a dead worker", "__init__")
+V("problem-getstate-strips-original", "break", ["C12"], PB, "    def split(self, split_nb: int, var_idx: int) -> List[Self]:\n",
+  "    def __getstate__(self):\n        state = self.__dict__\n        state.pop(\"triggers\", None)\n        return state\n\n    def split(self, split_nb: int, var_idx: int) -> List[Self]:\n",
+  "a pickle hook that edits the object's own dictionary: deepcopy in split strips the original", "__getstate__")
+V("problem-getstate-on-copy-neutral", "neutral", ["C12", "C13"], PB, "    def split(self, split_nb: int, var_idx: int) -> List[Self]:\n",
+  "    def __getstate__(self):\n        state = dict(self.__dict__)\n        state.pop(\"triggers\", None)\n        return state\n\n    def split(self, split_nb: int, var_idx: int) -> List[Self]:\n",
+  "the same hook working on a copy of the dictionary")
+V("affine-geq-accumulator-wrong-bound", "break", ["C07", "C01"], P + "affine_geq_propagator.py", None, None,
+  "copy/paste of the bound in the negative-coefficient branch of the interval sum", "compute_domains_affine_geq",
+  within="def compute_domains_affine_geq", edits=[{"old": "            domain_sum_max -= c * domains[i, MAX]\n", "new": "            domain_sum_max -= c * domains[i, MIN]\n", "occurrence": 0}])
+V("element-liv-entailed-with-free-value", "break", ["C07"], P + "element_liv_propagator.py",
+  "        if v[MIN] == v[MAX]:\n            return PROP_ENTAILMENT\n", "        return PROP_ENTAILMENT\n",
+  "'entailed' as soon as the index is fixed although l[i] and v still share several values", "compute_domains_element_liv")
+V("stack-height-validated-by-assert", "break", ["C19", "C16"], BS, None, None, "the stack height is validated by an assert (stripped under python -O)", "__init__",
+  edits=[{"old": "        if not 1 <= stack_max_height <= 256:\n            raise ValueError(", "new": "        assert 1 <= stack_max_height <= 256, (\n            "}])
+V("update-stack-8-bit", "break", ["C09", "C19"], BS, "        self.dom_update_stack = np.empty((stack_max_height, 2), dtype=np.uint16)\n",
+  "        self.dom_update_stack = np.empty((stack_max_height, 2), dtype=np.uint8)\n", "replay records narrower than the shared-domain index table", "dom_update_stack")
+V("minvalue-no-push-on-instantiated", "break", ["C04"], H + "min_value_dom_heuristic.py", None, None, "nothing is pushed for an instantiated domain", "min_value_dom_heuristic",
+  within="def min_value_dom_heuristic", edits=[{"old": "    cp_put(", "new": "    if shr_domains_stack[stacks_top[0], dom_idx, MIN] == shr_domains_stack[stacks_top[0], dom_idx, MAX]:\n        return 0\n    cp_put("}])
+V("scc-watches-instantiation-only", "break", ["C08", "C01"], P + "propagators.py",
+  "ALG_SCC = register_propagator(get_triggers_scc, get_complexity_scc, compute_domains_scc)", "ALG_SCC = register_propagator(get_triggers_no_sub_cycle, get_complexity_scc, compute_domains_scc)",
+  "scc registered with its neighbour's trigger function", "get_triggers_no_sub_cycle")
+V("init-reads-posting-order-list", "break", ["C13"], PB, None, None, "a per-constraint list kept since posting time is read by position after the sort", "init",
+  edits=[{"old": "        self.propagator_nb = 0\n", "new": "        self.propagator_nb = 0\n        self.prop_arity = []\n", "occurrence": 0},
+         {"old": "        self.propagators.append(propagator)\n", "new": "        self.propagators.append(propagator)\n        self.prop_arity.append(len(propagator[0]))\n"},
+         {"old": "            self.var_bounds[propagator_idx, RG_END] = self.var_bounds[propagator_idx, RG_START] + len(prop_vars)\n",
+          "new": "            self.var_bounds[propagator_idx, RG_END] = self.var_bounds[propagator_idx, RG_START] + self.prop_arity[propagator_idx]\n"}])
